@@ -215,3 +215,63 @@ def impl_highwater(case):
     res = compile_routine(to_qref(case["routine"]),
                           derived_resources=[{"name": "qubit_highwater", "type": "qubits", "calculate": calculate_highwater}])
     return {"tree": walk_compiled(res.routine, flags), "inexact": flags["inexact"]}
+
+
+# ------------------------------------------------------------------ Big-O (C19)
+
+def impl_bigo(case):
+    import sympy
+
+    from bartiq import sympy_backend as B
+    from bartiq.analysis import BigO
+
+    expr = B.as_expression(case["expr"])
+    x = sympy.Symbol(case["var"])
+    res = BigO(expr, variable=x).expr
+    terms = [list(t) for t, _ in sympy.Poly(expr, x).terms()] if expr.free_symbols else []
+    e, _ = from_sympy(res)
+    return {"result": e, "terms": terms, "text": str(res)}
+
+
+# ------------------------------------------------------------------ gradient descent (C20)
+
+def _cost(kind, a, b, c):
+    if kind == 0:
+        return lambda x: a * (x - b) * (x - b) + c
+    if kind == 1:
+        return lambda x: a * (x - b) * (x - b) * (x - b) * (x - b) + c * x
+    if kind == 2:
+        return lambda x: a * x * x * x + b * x * x + c * x
+    return lambda x: a * x + b
+
+
+def impl_graddesc(case):
+    from bartiq.analysis import Optimizer
+
+    f = _cost(case["kind"], *[float.fromhex(h) for h in case["abc"]])
+    bounds = tuple(float.fromhex(h) for h in case["bounds"]) if case["bounds"] else None
+    try:
+        r = Optimizer.gradient_descent(f, x0=float.fromhex(case["x0"]), bounds=bounds,
+                                       learning_rate=float.fromhex(case["lr"]), max_iter=case["max_iter"],
+                                       tolerance=float.fromhex(case["tol"]), momentum=float.fromhex(case["mom"]))
+    except ValueError:
+        return {"cls": 1}
+    except RuntimeError:
+        return {"cls": 2}
+    return {"cls": 0, "opt": float(r["optimal_value"]).hex(), "cost": float(r["minimum_cost"]).hex(),
+            "hist": [float(h).hex() for h in r["x_history"]]}
+
+
+def impl_minimize(case):
+    from bartiq.analysis import minimize
+
+    kw = {"x0": case["x0"], "bounds": tuple(case["bounds"]) if case["bounds"] else None,
+          "learning_rate": case["lr"], "max_iter": case["max_iter"], "tolerance": case["tol"]}
+    try:
+        r = minimize(case["expr"], "x", optimizer="gradient_descent", optimizer_kwargs=kw)
+    except ValueError:
+        return {"cls": 1}
+    except RuntimeError:
+        return {"cls": 2}
+    return {"cls": 0, "opt": float(r["optimal_value"]).hex(), "cost": float(r["minimum_cost"]).hex(),
+            "hist": [float(h).hex() for h in r["x_history"]]}
